@@ -1511,5 +1511,41 @@ func (s *keysorter) Swap(i, j int) {
 
 // Swap is part of sort.Interface.
 func (s *keysorter) Less(i, j int) bool {
-	return s.hashes[s.index[i]] < s.hashes[s.index[j]]
+	hi, hj := s.hashes[s.index[i]], s.hashes[s.index[j]]
+	if hi != hj {
+		return hi < hj
+	}
+	// Distinct keys may have equal hashes (e.g. 5 and a duration of 5ns).
+	// Break ties structurally so that the order does not depend on input order.
+	return compareConstants(s.keys[s.index[i]], s.keys[s.index[j]]) < 0
+}
+
+// compareConstants is a total order on constants that is consistent with
+// Equals: it returns 0 if and only if a.Equals(b).
+func compareConstants(a, b *Constant) int {
+	for a != b {
+		if a == nil || b == nil {
+			if a == nil {
+				return -1
+			}
+			return 1
+		}
+		if a.Type != b.Type {
+			return int(a.Type) - int(b.Type)
+		}
+		if a.NumValue != b.NumValue {
+			if a.NumValue < b.NumValue {
+				return -1
+			}
+			return 1
+		}
+		if c := strings.Compare(a.Symbol, b.Symbol); c != 0 {
+			return c
+		}
+		if c := compareConstants(a.fst, b.fst); c != 0 {
+			return c
+		}
+		a, b = a.snd, b.snd
+	}
+	return 0
 }
